@@ -896,7 +896,7 @@ class LinksUnregister(FnSpec):
 class LinksUpdate(FnSpec):
     file = "container/interface.py"
     qual = "TOCLinks.update"
-    props = ("C06",)
+    props = ("C06", "C09")
 
     def init(self):
         self.bindings["cast"] = lambda cx, t, v: v
@@ -1830,3 +1830,9 @@ def add_tocreg(reg):
     for s in specs:
         reg.add(s)
     return specs
+
+
+def add_links_only(reg):
+    """TOCLinks.update alone (for checks that only depend on how a link is re-targeted, e.g. the driver relation C09)"""
+    reg.set_class_home("TOCLinks", "container/interface.py")
+    return [LinksUpdate()]
